@@ -5,6 +5,7 @@ import (
 	"fmt"
 	"math/big"
 	"math/rand"
+	"sort"
 	"strings"
 
 	"verif/lib/sig"
@@ -691,20 +692,44 @@ func plain(k string) bool {
 	return true
 }
 
-// leadingEmptyInList reports whether some list in the tree has the empty
-// string as an element before a later element (the places where an
-// implementation that joins "only when the buffer is non-empty" goes wrong).
-func leadingEmptyInList(v *sig.Val) bool {
-	if v == nil {
-		return false
+// quirkPhrase is NOT an oracle. It re-creates one specific wrong answer (a
+// list serializer that writes the separator only when its buffer is not
+// empty, so leading empty strings vanish: ["","a"] -> [a]) for the sole
+// purpose of giving that defect its own violation key: a mismatch is
+// attributed to it only when goloop's id equals the id of this phrase.
+func quirkValue(v *sig.Val) string {
+	switch v.Kind {
+	case sig.KList:
+		out := ""
+		for _, x := range v.Vals {
+			f := quirkValue(x)
+			if out != "" {
+				out += "."
+			}
+			out += f
+		}
+		return "[" + out + "]"
+	case sig.KDict:
+		return "{" + quirkItems(v, nil) + "}"
 	}
-	if v.Kind == sig.KList && len(v.Vals) >= 2 && v.Vals[0].Kind == sig.KStr && v.Vals[0].S == "" {
-		return true
-	}
-	for _, x := range v.Vals {
-		if leadingEmptyInList(x) {
-			return true
+	return sig.RefValue(v)
+}
+
+func quirkItems(v *sig.Val, skip map[string]bool) string {
+	idx := []int{}
+	for i, k := range v.Keys {
+		if !skip[k] {
+			idx = append(idx, i)
 		}
 	}
-	return false
+	sort.Slice(idx, func(a, b int) bool { return v.Keys[idx[a]] < v.Keys[idx[b]] })
+	parts := []string{}
+	for _, i := range idx {
+		parts = append(parts, v.Keys[i], quirkValue(v.Vals[i]))
+	}
+	return strings.Join(parts, ".")
+}
+
+func quirkTxID(tx *sig.Val) []byte {
+	return sig.Sha3([]byte("icx_sendTransaction." + quirkItems(tx, map[string]bool{"signature": true, "txHash": true})))
 }
